@@ -6,7 +6,8 @@
 EXTENDS Cli, IOUtils, Json
 
 \* ---- tokens (code points)
-Ext  == <<46, 118, 116, 109>>                 \* .vtm
+ExtA == <<46, 97, 46, 118, 116, 109>>         \* .a.vtm   pattern of language vta
+ExtB == <<46, 98, 46, 118, 116, 109>>         \* .b.vtm   pattern of language vtb (same last extension)
 tA   == <<45, 45, 97>>                        \* --a
 tAB  == <<45, 45, 97, 45, 98>>                \* --a-b
 tA_B == <<45, 45, 97, 95, 98>>                \* --a_b
@@ -14,17 +15,21 @@ v1   == <<49>>                                \* 1
 vQ   == <<34, 120, 32, 121, 34>>              \* "x y"
 vN   == <<45, 53>>                            \* -5     a value that starts with a single dash
 vD   == <<45>>                                \* -      a lone dash
-fG   == <<103>> \o Ext                        \* g.vtm   loads
-fH   == <<104>> \o Ext                        \* h.vtm   loads
-fS   == <<115>> \o Ext                        \* s.vtm   syntax error at 2:4
-fE   == <<101>> \o Ext                        \* e.vtm   unknown reference at 3:7
+fG   == <<103>> \o ExtA                       \* g.a.vtm   vta, loads
+fH   == <<104>> \o ExtA                       \* h.a.vtm   vta, loads
+fS   == <<115>> \o ExtA                       \* s.a.vtm   vta, syntax error at 2:4
+fE   == <<101>> \o ExtA                       \* e.a.vtm   vta, unknown reference at 3:7
+fK   == <<107>> \o ExtB                       \* k.b.vtm   vtb, loads
 nA   == <<97>>
 nA_B == <<97, 95, 98>>
+LangA == <<118, 116, 97>>                     \* vta
+LangB == <<118, 116, 98>>                     \* vtb
 
-MCFiles == << [name |-> fG, status |-> "ok",       line |-> 0, col |-> 0],
-              [name |-> fH, status |-> "ok",       line |-> 0, col |-> 0],
-              [name |-> fS, status |-> "syntax",   line |-> 2, col |-> 4],
-              [name |-> fE, status |-> "semantic", line |-> 3, col |-> 7] >>
+MCFiles == << [name |-> fG, lang |-> 1, status |-> "ok",       line |-> 0, col |-> 0],
+              [name |-> fH, lang |-> 1, status |-> "ok",       line |-> 0, col |-> 0],
+              [name |-> fS, lang |-> 1, status |-> "syntax",   line |-> 2, col |-> 4],
+              [name |-> fE, lang |-> 1, status |-> "semantic", line |-> 3, col |-> 7],
+              [name |-> fK, lang |-> 2, status |-> "ok",       line |-> 0, col |-> 0] >>
 
 D0 == [declared |-> FALSE, params |-> <<>>]
 D1 == [declared |-> TRUE,  params |-> << [name |-> nA, mandatory |-> TRUE] >>]
@@ -60,22 +65,38 @@ Family1  == IF Thorough
 Tokens  == {tA, tAB, tA_B, v1, vQ, vN, vD, fG, fS} \cup (IF Thorough THEN {TokOverwrite} ELSE {})
 Family2 == UNION {[1..k -> Tokens] : k \in 1..MaxLen}
 
+\* ---- family 3: model files of two languages (one target, two generators) and a few arguments
+FileSeqs3 == UNION {[1..k -> {fG, fK, fS}] : k \in 1..(IF Thorough THEN 3 ELSE 2)}
+Tails3    == {<<>>, <<tA>>, <<tA, v1>>, <<tAB>>, <<tA, tAB>>}
+Family3   == {f \o t : f \in FileSeqs3, t \in Tails3}
+DeclsB    == {D0, D1}
+
 Modes == {"language", "grammar", "ext"}
 MCNames == {MCFiles[i].name : i \in 1..Len(MCFiles)}
-ASSUME FilesInFragment(MCFiles) /\ \A d \in AllDecls : DeclInFragment(d)
+\* two registered languages whose patterns share the last extension; a_b is a model parameter of vta
+Langs(dA, dB) == << [name |-> LangA, suffix |-> ExtA, mparams |-> <<nA_B>>, decl |-> dA],
+                    [name |-> LangB, suffix |-> ExtB, mparams |-> <<>>,     decl |-> dB] >>
+ASSUME FilesInFragment(MCFiles, 2) /\ \A d \in AllDecls : DeclInFragment(d)
+ASSUME LangsInFragment(Langs(D0, D1), 1)
 
 \* the argvs of the judged fragment: with an explicit language, and (shorter ones) with every mode
 ArgvsLang == {a \in Family1 \cup Family2 : ArgvInFragment("generate", "language", a, MCNames)}
 ArgvsAny  == {a \in ArgvsLang : Len(a) <= ModeLen /\ ArgvInFragment("generate", "ext", a, MCNames)}
 
-GenCases == {[cmd |-> "generate", mode |-> "language", argv |-> a, decl |-> d, files |-> MCFiles] :
-                a \in ArgvsLang, d \in Decls}
-            \cup {[cmd |-> "generate", mode |-> m, argv |-> a, decl |-> d, files |-> MCFiles] :
-                m \in {"grammar", "ext"}, a \in ArgvsAny, d \in Decls}
-ChkCases == {[cmd |-> "check", mode |-> m, argv |-> a, decl |-> D0, files |-> MCFiles] :
-                m \in Modes, a \in UNION {[1..k -> {fG, fH, fS, fE}] : k \in 1..MaxCheck}}
+Case(cmd, m, sel, a, dA, dB, dAny) ==
+  [cmd |-> cmd, mode |-> m, sel |-> sel, argv |-> a, langs |-> Langs(dA, dB), anydecl |-> dAny, files |-> MCFiles]
 
-Universe == GenCases \cup (IF D0 \in Decls THEN ChkCases ELSE {})
+\* families 1 and 2: language vta (the generator of "any" declares the same as vta's)
+GenCases == {Case("generate", "language", 1, a, d, D1, d) : a \in ArgvsLang, d \in Decls}
+            \cup {Case("generate", m, 1, a, d, D1, d) : m \in {"grammar", "ext"}, a \in ArgvsAny, d \in Decls}
+\* family 3: both languages; deduced per file, or either language named
+MixCases == {Case("generate", "ext", 1, a, d, dB, D0) : a \in Family3, d \in Decls, dB \in DeclsB}
+            \cup {Case("generate", "language", k, a, d, dB, D0) : a \in Family3, d \in Decls, dB \in DeclsB, k \in 1..2}
+ChkCases == {Case("check", m, k, a, D0, D0, D0) :
+                m \in Modes, k \in 1..2, a \in UNION {[1..n -> {fG, fH, fS, fE, fK}] : n \in 1..MaxCheck}}
+
+Universe == GenCases \cup MixCases
+            \cup (IF D0 \in Decls THEN {u \in ChkCases : u.mode # "ext" \/ u.sel = 1} ELSE {})
 
 \* One behaviour per case:  (case, not run) --Run--> (case, outcome).  The initial
 \* states are the universe; the outcome is computed in the step (by all workers).
@@ -94,6 +115,7 @@ InvFlagsAndValues   == done => FlagsAndValues(c, out)
 InvDeclaredEnforced == done => DeclaredEnforced(c, out)
 InvGenerateOutcome  == done => GenerateOutcome(c, out)
 InvCheckOutcome     == done => CheckOutcome(c, out)
+InvModelParams      == done => ModelParamsPassed(c, out)
 NoDev   == {}
 DevBare == {"BareFlagKeepsDashes"}
 
